@@ -33,7 +33,7 @@ def configs(tier):
 
 
 def run(chk):
-    return run_search_check(chk, "C01", "C01", configs(chk.tier), e2e_oracle)
+    return run_search_check(chk, "C01", "C01", configs(chk.tier), e2e_oracle, extra=rowwise_decisions, extra_models=["Model/RowSearch"])
 
 
 def replay(payload):
